@@ -85,7 +85,7 @@ Section Own.
         let n := cont s i in
         if pooled_ty (nty n) then
           walk b' (put_node s i) (rev (dkids n) ++ rest) (ok && put_ok s i)
-        else walk b' s rest ok
+        else walk b' s (rev (dkids n) ++ rest) ok     (* not pooled: left alone; the release may still pass through it *)
     | _, _ => (s, ok)
     end.
 
@@ -96,10 +96,9 @@ Section Own.
     | S f =>
         let n := cont s i in
         if container (nty n) then
-          if pooled_ty (nty n) then
-            let r1 := fold_left (fun acc c => rel f (fst acc) c (snd acc)) (dkids n) (s, ok) in
-            (put_node (fst r1) i, snd r1 && put_ok (fst r1) i)
-          else (s, ok)
+          let r1 := fold_left (fun acc c => rel f (fst acc) c (snd acc)) (dkids n) (s, ok) in
+          if pooled_ty (nty n) then (put_node (fst r1) i, snd r1 && put_ok (fst r1) i)
+          else r1                                      (* not pooled: left alone; the release may still pass through it *)
         else walk budget s [i] ok
     end.
 
